@@ -245,13 +245,11 @@ pub fn install_panic_hook() {
                     .location()
                     .map(|l| format!("{}:{}", l.file(), l.line()))
                     .unwrap_or_default();
-                let _ = std::panic::catch_unwind(AssertUnwindSafe(|| {
-                    world::with(|w| {
-                        if w.panics.len() < 8 {
-                            w.panics.push(format!("{} @ {}", msg, loc))
-                        }
-                    })
-                }));
+                world::try_with(|w| {
+                    if w.panics.len() < 8 {
+                        w.panics.push(format!("{} @ {}", msg, loc))
+                    }
+                });
             } else {
                 prev(info);
             }
